@@ -274,6 +274,15 @@ instance (a : DatasetArgs) (q : QueryFacts) (fs : FsFacts) (o : Outcome) (ob : O
   unfold Spec; exact inferInstance
 
 
+/-! ### several executions on one dataset object -/
+
+/-- What the harness sees of a sequence of executions on ONE dataset object: one observation per
+execution; a refused constructor gives the single observation of the refusal and no execution. -/
+def observeSeq (s : Shared) (a : DatasetArgs) (fs : FsFacts) (steps : List (QueryFacts × Outcome)) : List Obs :=
+  match executeSeq s a fs steps with
+  | .error e => [observe a ([], .error e)]
+  | .ok rs => rs.map (observe a)
+
 /-! ### shape of a trace, well-formedness of a table row -/
 
 inductive Kind where
